@@ -23,9 +23,15 @@
 // b = discretisation allowance of the simulator (relative to sqrt(C_ii C_jj)); see allowance() for the derivation.
 //
 // Oracle of the generators: every draw inside the support; the first four central moments (about the true mean)
-// within 6 sigma of the closed-form values, sigma from the closed-form moments of order <= 8; the
-// Kolmogorov-Smirnov distance below the Dvoretzky-Kiefer-Wolfowitz bound sqrt(ln(2/alpha)/(2N)), alpha = 1e-6
-// (valid for continuous and discrete laws alike).  CDFs from boost::math (independent of Law.cpp).
+// within max(6, Cornish-Fisher quantile at 5.7e-7) sigma of the closed-form values, sigma, skewness and kurtosis
+// of the estimator from the closed-form moments of order <= 16 (orders whose estimator is too far from normal are
+// not asserted); the Kolmogorov-Smirnov distance below the Dvoretzky-Kiefer-Wolfowitz bound sqrt(ln(2/alpha)/(2N)),
+// alpha = 1e-6 (valid for continuous and discrete laws alike); for continuous laws the two tails are reached:
+// F(min) and 1 - F(max) <= ln(4e6)/N (they are Beta(1,N) variables).  CDFs from boost::math (independent of Law.cpp).
+//
+// Failure keys: <stat>:<simulator[:support|solver]>[:sill variant]:<iso|aniso>:<structure code path> for the fields
+// (stat in mean, var, cov, xvar, xcov; the pooled statistics share the key of the plain ones);
+// <law code path>:<old|new>:<support|moment k|ks|tail> for the generators.
 #include "verif.hpp"
 #include "geo_common.hpp"
 
@@ -703,7 +709,7 @@ static void runSim(const SimCase& c, Ctx& ctx)
         if (!wanted(iv, jv) || !pooled(0, iv, jv, s)) continue;
         if (judge(s))
         {
-          ctx.fail("pooled-" + x + "var:" + tag + varVariant + ":" + isoTag,
+          ctx.fail(x + "var:" + tag + varVariant + ":" + isoTag,
                    fmt("%s averaged over the %d probes (var %d,%d) = %.5g, model %.5g: |diff| = %.1f sigma_MC, allowance %.3g (R=%d)",
                        iv == jv ? "variance" : "cross-covariance", np, iv, jv, s.est, s.exp, std::fabs(s.est - s.exp) / s.sd, b * s.scale, R));
           return;
@@ -736,7 +742,7 @@ static void runSim(const SimCase& c, Ctx& ctx)
           if (!wanted(iv, jv) || !pooled(cls, iv, jv, s)) continue;
           if (judge(s))
           {
-            ctx.fail("pooled-" + x + "cov:" + tag + varVariant + ":" + isoTag,
+            ctx.fail(x + "cov:" + tag + varVariant + ":" + isoTag,
                      fmt("covariance of lag class %d averaged over the anchors (var %d,%d) = %.5g, model %.5g: |diff| = %.1f sigma_MC, allowance %.3g (R=%d)",
                          cls, iv, jv, s.est, s.exp, std::fabs(s.est - s.exp) / s.sd, b * s.scale, R));
             return;
@@ -770,16 +776,24 @@ static SimCase genTb()
   c.ndim = G::pick<int>({1, 2, 2, 2, 2, 3});
   c.nvar = G::pick<int>({1, 1, 2});
   c.grid = G::pct(45) ? 1 : 0;
-  double r1 = G::pick<double>({1., 30., 1000.}) * G::u(0.8, 1.25);
+  double base = G::pick<double>({1., 30., 1000.});
+  double r1 = base * G::u(0.8, 1.25);
   bool aniso = c.ndim >= 2 && G::pct(80);
   std::vector<int> types = {T_EXPO, T_SPHE, T_CUBIC, T_GAUSS, T_MATERN, T_STABLE};
   int ns = G::i(1, 2);
   for (int k = 0; k < ns; k++) c.st.push_back(genStruc(c.ndim, c.nvar, k == 0 ? r1 : r1 * G::u(0.4, 1.2), types, aniso));
+  // Stable (alpha < 1) and Matern (nu < 0.5) bands: the migration process falls back to ceil(extension / 1e-5) draws
+  // per band when its random scale is tiny (CalcSimuTurningBands::_migrationInit), i.e. 1e8 draws per band for
+  // coordinates in the thousands.  Those structures are generated with ranges of order 1 only (see report).
+  bool heavy = false;
+  for (auto& s : c.st) heavy = heavy || (s.type == T_STABLE && s.param < 1.) || (s.type == T_MATERN && s.param < 0.5);
+  if (heavy)
+    for (auto& s : c.st) s.range /= base;
   if (G::pct(25)) c.st.push_back(genNugget(c.ndim, c.nvar));
   if (G::pct(50))
     for (int v = 0; v < c.nvar; v++) c.means.push_back(G::r(-12, 12, 4));
   int K = c.grid ? 3 : (c.ndim == 3 ? 4 : 6);
-  c.anchors = genAnchors(c.ndim, K, (c.grid ? 1.0 : 3.0) * c.rmax(), G::pick<double>({0., 0., 5000.}));
+  c.anchors = genAnchors(c.ndim, K, (c.grid ? 1.0 : 3.0) * c.rmax(), heavy ? 0. : G::pick<double>({0., 0., 5000.}));
   c.cpr = c.ndim == 3 ? 2 : G::i(3, 4);
   if (c.grid && c.ndim >= 2 && G::pct(30)) c.gangle = G::r(1, 89, 1);
   c.nb = G::i(30, 80);
@@ -1253,7 +1267,7 @@ static void runLaw(const LawCase& c, Ctx& ctx)
   if (!f.empty())
   {
     size_t bar = f.find('|');
-    ctx.fail(f.substr(0, bar) + ":" + tag, f.substr(bar + 1));
+    ctx.fail(tag + ":" + f.substr(0, bar), f.substr(bar + 1));
     return;
   }
   ctx.label(fmt("maxz:%d", std::min(9, (int)std::floor(maxz))));
